@@ -5,6 +5,36 @@ ROOT = os.path.dirname(os.path.dirname(os.path.abspath(__file__)))
 
 # id -> (engine, category, technique, level text, level note, design ref)
 CHECKS = {
+ "C01": ("vh-store", "exploration",
+         "stateful proptest histories (put/overwrite/remove/get/list + generated delivery order/delay of completion notifications + injected write faults) interpreted against the real SwarmDriver/NodeRecordStore and a per-key reference model; shrinking to replay file",
+         "Generated-history search against a reference map: every read must return bytes handed in for that key; after settling, the latest accepted write per key is read back byte-exact, listed with the right type and on disk, removed keys are gone. The harness owns the schedule at the granularity the statement quantifies over (completion order of different-key tasks = order of the buffered completion notifications). Held-on-N-histories assurance.",
+         "Single-threaded stepping through the verif-hooks pass-throughs; same-key task order is FIFO (excluded by the statement); keys whose write the harness made fail are only checked for the safety half.",
+         "DESIGN.md §3 C01"),
+ "C02": ("vh-store", "fault_enumeration",
+         "crash-state enumeration: disk effects of generated histories are measured by directory diff, then per-key effect prefixes and torn byte prefixes are materialised and a fresh node (same identity, shipped feature set) is started over them; plus live drop-without-settle crashes and an exhaustive every-byte-prefix sweep per small record",
+         "Fault enumeration over crash points: for each generated history, arbitrary per-key lag and a torn prefix of the next write; for small records every byte prefix is tried (exhaustive per case). Oracle from the statement: served value is nothing or a previously validated value; completed writes are served and listed; completed removals stay removed.",
+         "A torn write is modelled as a byte prefix of the new content; per-key effects apply in issue order; restart goes through the real NetworkBuilder::build_node with ant-node's default features (encrypt-records) via feature unification.",
+         "DESIGN.md §3 C02"),
+ "C05": ("vh-store", "exploration",
+         "proptest cases (quorum cfg x 1-4 concurrent real get_record_from_network callers x up to 3 versions of chunk/transaction/register/scratchpad records x reply sequences with duplicates x terminator) injected as synthetic kad events into a hand-stepped real SwarmDriver; distinct-peer quorum + merge model as oracle",
+         "Generated search over reply schedules at the kad-event seam against a model counting distinct peers per version: a value is legal only on quorum (+target) or as the deterministic merge; SplitRecord must carry every version; every caller gets exactly one outcome. Held-on-N-cases assurance.",
+         "libp2p's query engine is replaced by injected events; a target is only required of quorum results, not of merges; scratchpad counter ties may resolve either way.",
+         "DESIGN.md §3 C05"),
+ "C08": ("vh-store", "exploration",
+         "stateful proptest histories (advertisement lists from 5 holders over 40 keys, completions, early completions, local removals, range/fullness updates, virtual-time ageing) against the real ReplicationFetcher with a monitor holding its own in-flight set (invariants I1-I7) + bounded-progress scenario (I8)",
+         "History invariants checked after every call on generated interleavings: nothing held is scheduled, multi-record adverts respect the range, nothing beyond the farthest when full, no duplicate concurrent fetch, batch cap, closest-first, timeouts reported and queues dropped; progress within a stated bound in a fair scenario. Held-on-N-histories assurance.",
+         "Virtual time through the ageing hook with a 17-23 s guard band around the 20 s deadline; liveness only as bounded progress.",
+         "DESIGN.md §3 C08"),
+ "C10": ("vh-store", "exploration",
+         "stateful proptest histories (capacity 1-12, puts at known distances incl. unacknowledged bursts, range, clean-up, payments, quotes, restarts) against the real SwarmDriver/NodeRecordStore with a step-by-step accept/evict/refuse model; large-store cases around the 1638-record clean-up threshold",
+         "Model-based checking of every step: acceptance below capacity, closer-than-farthest rule with exactly the farthest evicted, refusal leaves the held set unchanged, three views of the held set agree, quoted figures equal truth incl. payment count across restarts; clean-up decides each record correctly around the threshold. Held-on-N-histories assurance.",
+         "Distances by the harness' own SHA-256/XOR metric; overwrite of a held key at capacity and distance == range are explicit either-zones.",
+         "DESIGN.md §3 C10"),
+ "C11": ("vh-store", "exploration",
+         "proptest address sets of every kind incl. constructed hash-prefix near-collisions vs an independent SHA-256/XOR big-endian reference; differential check of sort_peers_by_*, replicate candidates, closest-K and close-group selection on a real driver with generated routing table",
+         "Differential testing against an independently written metric: numeric distance, symmetry, zero-iff-equal, typed vs raw-key forms, and every closeness decision reachable in ant-networking order/filter exactly as the reference integer does. Held-on-N-cases assurance.",
+         "Exact distance ties between different peers are not generated; the store/fetcher range filters are cross-checked inside C10/C08 with the same reference.",
+         "DESIGN.md §3 C11"),
  "C16": ("vh-protocol", "exploration",
          "proptest generators (boundary-biased amounts, decimal grammar + mutations) vs exact bignum reference; shrinking to replay file",
          "Generated-input search: every printed amount is re-evaluated as an exact decimal, every generated string is classified by an independent grammar+bignum oracle (must-parse-to / must-reject / either), checked_add/sub compared with exact integer arithmetic. Held-on-N-cases assurance, N in the evidence; adequate because the property is a pure function of one or two inputs with known boundary regions which the generators target.",
@@ -66,6 +96,6 @@ def main():
     json.dump(m, open(os.path.join(ROOT, "MANIFEST.json"), "w"), indent=1)
     print("wrote MANIFEST.json:", len(checks), "checks,", len(na), "not claimed")
 
-HOOK_COMMITS = []
+HOOK_COMMITS = ["1cacaa2", "a146744"]
 if __name__ == "__main__":
     main()
